@@ -28,6 +28,23 @@ def cases(tier, seed):
     out = []
     for k in range(n):
         fam = gen.rich_family(rng, n_masters=rng.choice([2, 3]))
+        if k % 4 == 2:
+            # fixed shares: three masters, variable features, default kern writer; a glyph-to-class exception that one
+            # non-default master lacks (there the class value applies), and values that agree in the first- and last-listed
+            # source while the middle one differs
+            fam = gen.rich_family(rng, n_masters=3)
+            cand = [m for m in fam["masters"] if m["loc"]["Weight"] != 400]
+            m_ = rng.choice(cand)
+            m_["ufo"]["kerning"] = [e for e in m_["ufo"].get("kerning", []) if (e[0], e[1]) != ("e", "public.kern2.A")]
+            a_, c_ = fam["masters"][0]["ufo"], fam["masters"][2]["ufo"]
+            ka = {(l, r): v for l, r, v in a_.get("kerning", [])}
+            c_["kerning"] = [[l, r, ka.get((l, r), v) if (l, r) != ("e", "public.kern2.A") else v] for l, r, v in c_.get("kerning", [])]
+            for n_, g in c_["glyphs"].items():
+                if n_ in a_["glyphs"] and len(g["anchors"]) == len(a_["glyphs"][n_]["anchors"]):
+                    g["anchors"] = copy.deepcopy(a_["glyphs"][n_]["anchors"])
+            out.append({"cid": f"c10-{seed}-{k}", "lib": rng.choice(["ufoLib2", "defcon"]), "fam": fam, "flavor": rng.choice(["tt", "cff2"]),
+                        "varFeatures": True, "prodNames": False, "kern2": False})
+            continue
         if k % 4 == 1:
             # a full master (not the default) that kerns nothing at all
             cand = [m for m in fam["masters"] if m["loc"]["Weight"] != 400]
